@@ -27,6 +27,7 @@ import (
 	"testing"
 
 	"github.com/miekg/dns"
+	"github.com/semihalev/sdns/internal/wire"
 )
 
 type vC10Tr struct {
@@ -86,6 +87,175 @@ func vC10WRLE(b []byte) string {
 	}
 	sb.WriteString("]")
 	return sb.String()
+}
+
+// ---- "wpath": every way a reply can enter the base writer, and what reaches the transport
+// (which Transport method, with what), on plain / internal transports, declared byte sinks or not.
+
+type vC10PCall struct {
+	tr    int
+	bytes []byte   // Transport.Write
+	msg   *dns.Msg // Transport.WriteMsg
+}
+type vC10PTr struct {
+	id       int
+	tcp      bool
+	internal bool
+	calls    *[]vC10PCall
+}
+
+func (t *vC10PTr) LocalAddr() net.Addr { return &net.UDPAddr{IP: net.IPv4(127, 0, 0, 1), Port: 53} }
+func (t *vC10PTr) RemoteAddr() net.Addr {
+	if t.tcp {
+		return &net.TCPAddr{IP: net.IPv4(192, 0, 2, byte(t.id)), Port: 4000 + t.id}
+	}
+	return &net.UDPAddr{IP: net.IPv4(192, 0, 2, byte(t.id)), Port: 4000 + t.id}
+}
+func (t *vC10PTr) WriteMsg(m *dns.Msg) error {
+	*t.calls = append(*t.calls, vC10PCall{tr: t.id, msg: m})
+	return nil
+}
+func (t *vC10PTr) Write(b []byte) (int, error) {
+	*t.calls = append(*t.calls, vC10PCall{tr: t.id, bytes: append([]byte(nil), b...)})
+	return len(b), nil
+}
+func (t *vC10PTr) Close() error   { return nil }
+func (t *vC10PTr) Internal() bool { return t.internal }
+
+// a record type the library does not own (TryPack declines it; the library packs it like an A)
+type vC10ForeignA struct{ *dns.A }
+
+func vC10PathCases(f *os.File, r *rand.Rand, n int) {
+	p := newPipeline(nil, map[string]Handler{}, nil, RecursionWorkPolicy{})
+	for cn := 0; cn < n; cn++ {
+		var calls []vC10PCall
+		ch := p.NewChain()
+		// some history on the chain first: another transport, a reply written
+		if r.Intn(2) == 0 {
+			old := &vC10PTr{id: 9, calls: &calls}
+			q0 := new(dns.Msg)
+			q0.SetQuestion("old.wpath.test.", dns.TypeA)
+			ch.Reset(old, q0)
+			if r.Intn(2) == 0 {
+				ch.AllowDirectPack()
+			}
+			m0 := new(dns.Msg)
+			m0.SetReply(q0)
+			m0.Rcode = dns.RcodeServerFailure
+			_ = ch.Writer.WriteMsg(m0)
+			calls = nil
+		}
+		tr := &vC10PTr{id: 1 + r.Intn(4), tcp: r.Intn(2) == 0, internal: r.Intn(3) == 0, calls: &calls}
+		req := new(dns.Msg)
+		req.SetQuestion(fmt.Sprintf("q.c%d.wpath.test.", cn), dns.TypeA)
+		req.Id = uint16(r.Intn(65536))
+		if r.Intn(2) == 0 {
+			ch.Reset(tr, req)
+		} else {
+			ch.ResetWire(tr, NewRequest(req))
+		}
+		direct := r.Intn(3) != 0
+		if direct {
+			ch.AllowDirectPack()
+		}
+		base := ch.Writer.(*responseWriter)
+		var reqs, obs, desc, fails []string
+		msgNo := map[*dns.Msg]int{}
+		kinds := map[string]int{}
+		nreq := 1 + r.Intn(4)
+		for i := 0; i < nreq; i++ {
+			m := new(dns.Msg)
+			m.SetReply(req)
+			m.Answer = []dns.RR{&dns.A{Hdr: dns.RR_Header{Name: req.Question[0].Name, Rrtype: dns.TypeA, Class: dns.ClassINET, Ttl: uint32(r.Intn(600))}, A: net.IPv4(10, 2, byte(i), byte(r.Intn(256)))}}
+			m.Rcode = []int{0, 0, 0, dns.RcodeNameError, dns.RcodeServerFailure, dns.RcodeRefused}[r.Intn(6)]
+			before := len(calls)
+			k := r.Intn(10)
+			switch {
+			case k < 2: // Write of well-formed bytes
+				b, _ := m.Pack()
+				reqs = append(reqs, fmt.Sprintf("WB %s true %d", vC10WRLE(b), m.Rcode))
+				_, _ = ch.Writer.Write(b)
+				kinds["Write"]++
+			case k < 3: // Write of bytes that do not decode
+				b := []byte{byte(r.Intn(256)), byte(r.Intn(256)), 0x84, 0, 0, 9, 0, 0, 0, 0, 0, 0, 3}
+				ok := new(dns.Msg).Unpack(b) == nil
+				reqs = append(reqs, fmt.Sprintf("WB %s %s 0", vC10WRLE(b), vC10WBool(ok)))
+				_, _ = ch.Writer.Write(b)
+				kinds["Write-garbage"]++
+			case k < 5: // WriteWire
+				b, _ := m.Pack()
+				reqs = append(reqs, fmt.Sprintf("WW %s %d", vC10WRLE(b), m.Rcode))
+				_ = base.WriteWire(b, WireInfo{Rcode: m.Rcode})
+				kinds["WriteWire"]++
+			default: // WriteMsg: ordinary / a record TryPack declines / an extended rcode without OPT
+				switch r.Intn(5) {
+				case 0:
+					m.Answer = append(m.Answer, vC10ForeignA{&dns.A{Hdr: dns.RR_Header{Name: req.Question[0].Name, Rrtype: dns.TypeA, Class: dns.ClassINET, Ttl: 5}, A: net.IPv4(10, 3, 3, 3)}})
+					kinds["WriteMsg-foreign-rr"]++
+				case 1:
+					m.Rcode = 16 + r.Intn(8)
+					kinds["WriteMsg-extended-rcode"]++
+				default:
+					kinds["WriteMsg"]++
+				}
+				// the environment: does the pooled packer take this message, and what does it yield
+				packed := "None"
+				handled, _ := wire.TryPack(m, func(body []byte) error {
+					packed = "(Some " + vC10WRLE(body) + ")"
+					return nil
+				})
+				if !handled {
+					packed = "None"
+				}
+				msgNo[m] = i + 1
+				reqs = append(reqs, fmt.Sprintf("WM %d %d %s", i+1, m.Rcode, packed))
+				_ = ch.Writer.WriteMsg(m)
+			}
+			switch len(calls) - before {
+			case 0:
+				obs = append(obs, "None")
+				desc = append(desc, "-")
+			case 1:
+				c := calls[before]
+				if c.msg != nil {
+					no, known := msgNo[c.msg]
+					if !known {
+						no = 999
+						fails = append(fails, fmt.Sprintf("request %d: the transport was handed a message object no handler of this request wrote", i+1))
+					}
+					obs = append(obs, fmt.Sprintf("Some (%d,None,%d)", c.tr, no))
+					desc = append(desc, fmt.Sprintf("WriteMsg(msg %d)->tr %d", no, c.tr))
+				} else {
+					obs = append(obs, fmt.Sprintf("Some (%d,Some %s,0)", c.tr, vC10WRLE(c.bytes)))
+					desc = append(desc, fmt.Sprintf("Write(%d octets)->tr %d", len(c.bytes), c.tr))
+				}
+				if c.tr != tr.id {
+					fails = append(fails, fmt.Sprintf("request %d: the reply went to transport %d, the chain is bound to %d", i+1, c.tr, tr.id))
+				}
+			default:
+				obs = append(obs, "Some (999,None,999)") // more than one transport call: never equal to the model
+				fails = append(fails, fmt.Sprintf("request %d: %d transport calls for one write", i+1, len(calls)-before))
+				desc = append(desc, fmt.Sprintf("%d calls", len(calls)-before))
+			}
+		}
+		if len(calls) > 1 {
+			fails = append(fails, fmt.Sprintf("%d transport calls for one request", len(calls)))
+		}
+		fin := fmt.Sprintf("(%d,%s,%s,%s)", base.rcode, vC10WBool(base.Written()), vC10WBool(base.msg != nil), vC10WBool(base.wire != nil))
+		line := map[string]any{
+			"k": "wpath",
+			"coq": fmt.Sprintf("CaseWPath %d %s %s %s [%s] [%s] %s", tr.id, vC10WBool(tr.tcp), vC10WBool(tr.internal), vC10WBool(direct),
+				strings.Join(reqs, ";"), strings.Join(obs, ";"), fin),
+			"nontrivial": len(calls) == 1 && nreq > 1,
+			"desc":       map[string]any{"transport": tr.id, "internal": tr.internal, "direct": direct, "calls": desc, "kinds": kinds, "final_rcode_written_msg_wire": fin},
+		}
+		if len(fails) > 0 {
+			line["go_fail"] = strings.Join(fails, "; ")
+		}
+		b, _ := json.Marshal(line)
+		f.Write(append(b, '\n'))
+		p.PutChain(ch)
+	}
 }
 
 func TestVerifC10Writer(t *testing.T) {
@@ -331,4 +501,6 @@ func TestVerifC10Writer(t *testing.T) {
 		b, _ := json.Marshal(line)
 		f.Write(append(b, '\n'))
 	}
+
+	vC10PathCases(f, r, n)
 }
